@@ -204,6 +204,20 @@ impl Report {
         let outcomes: u64 = self.parts.iter().map(|p| p.distinct_outcomes).sum();
         let exhaustive = !self.parts.is_empty() && self.parts.iter().all(|p| p.exhaustive);
 
+        // triage aid: every distinct fresh signature with its count and first example
+        if !fresh.is_empty() {
+            let mut by: BTreeMap<String, (usize, String)> = BTreeMap::new();
+            for v in &fresh {
+                let e = by.entry(v.sig.clone()).or_insert((0, v.detail.clone()));
+                e.0 += 1;
+            }
+            let mut txt = String::new();
+            for (s, (n, d)) in &by {
+                txt.push_str(&format!("{n}\t{s}\n\t{d}\n"));
+            }
+            let _ = std::fs::create_dir_all(dir.join("target"));
+            let _ = std::fs::write(dir.join("target").join(format!("sigs-{}.txt", self.property)), txt);
+        }
         let mut replay_paths = vec![];
         let _ = std::fs::create_dir_all(dir.join("replays"));
         // distinct signatures only; cap the number of files
